@@ -30,9 +30,21 @@ class SByte(KBits):
 def resolve(fr, v, depth=8):
     for _ in range(depth):
         if isinstance(v, Ref):
-            v = fr._project(fr.store.get(v.root, TOP), v.proj)
+            nxt = fr._project(fr.store.get(v.root, TOP), v.proj)
+            if nxt is TOP and isinstance(v.root, int) and not v.proj and ('*', v.root) in fr.store:
+                # a reference to a by-reference parameter: the parameter's referent
+                nxt = fr.store[('*', v.root)]
+            v = nxt
         else:
             break
+    return v
+
+
+def referent(fr, op):
+    """What a (possibly doubly indirect) reference operand finally designates."""
+    v = resolve(fr, fr.deref_operand(op))
+    if v is TOP:
+        v = resolve(fr, fr.operand(op))
     return v
 
 
@@ -147,6 +159,51 @@ class Model:
                 fr.storev(dest, Ref(key, [['f', 0]]))
                 return True
             return False
+        # ---------------------------------------------------------------- field elements on streams
+        if name == 'read_be' and trait == 'ff::PrimeFieldRepr' and len(args) == 2:
+            k = sum(1 for e in pth.events if e[0] == 'repr-read')
+            src = referent(fr, args[1])
+            pth.events.append(('repr-read', k, src == 'READER', c.get('self_ty'), where))
+            fr.store_through(args[0], ('repr', k))
+            fr.storev(dest, Opt(None, exp.Either(Agg([]), ('io-error', 'read', k)), ('read', k)))
+            return True
+        if name == 'from_repr' and trait == 'ff::PrimeField' and len(args) == 1:
+            v = fr.operand(args[0])
+            k = v[1] if isinstance(v, tuple) and v and v[0] == 'repr' else None
+            pth.events.append(('from_repr', k, c.get('self_ty'), where))
+            fr.storev(dest, Opt(None, exp.Either(('fe', k, c.get('self_ty')), ('range-error', k)), ('from_repr', k)))
+            return True
+        if name == 'into_repr' and trait == 'ff::PrimeField' and len(args) == 1:
+            fr.storev(dest, ('repr_of', fr.deref_operand(args[0]), c.get('self_ty')))
+            return True
+        if name == 'write_be' and trait == 'ff::PrimeFieldRepr' and len(args) == 2:
+            v = fr.deref_operand(args[0])
+            src = v[1] if isinstance(v, tuple) and v and v[0] == 'repr_of' else ('?', repr(v))
+            width = {'bls12_381::fq::FqRepr': 48, 'bls12_381::fr::FrRepr': 32}.get(c.get('self_ty'))
+            if width is None:
+                return False
+            data = [('cb', src, j) for j in range(width)]
+            k = sum(1 for e in pth.events if e[0] in ('stream-write', 'buffer-write'))
+            tgt = referent(fr, args[1])
+            if tgt == 'WRITER':
+                pth.events.append(('stream-write', 'write_be', data, True, where))
+            elif isinstance(tgt, Agg) and tgt.kind and tgt.kind[0] == 'vec':
+                # Vec<u8> as a writer: appends
+                w = fr.operand(args[1])
+                for _ in range(6):
+                    nxt = fr._project(fr.store.get(w.root, TOP), w.proj) if isinstance(w, Ref) else None
+                    if isinstance(nxt, Ref):
+                        w = nxt
+                    else:
+                        break
+                if not isinstance(w, Ref):
+                    return False
+                fr.store[w.root] = fr._update(fr.store.get(w.root), list(w.proj), Agg(list(tgt.items) + data, tgt.kind)) if w.proj else Agg(list(tgt.items) + data, tgt.kind)
+                pth.events.append(('buffer-write', 'write_be', len(data), where))
+            else:
+                pth.events.append(('stream-write', 'write_be', data, False, where))
+            fr.storev(dest, Opt(None, exp.Either(Agg([]), ('io-error', 'write', k)), ('write', k, where)))
+            return True
         # ---------------------------------------------------------------- reading
         if trait == 'std::io::Read' and name in ('read_exact', 'read', 'read_to_end', 'read_to_string', 'read_vectored', 'read_buf', 'read_buf_exact', 'bytes', 'take', 'by_ref', 'chain'):
             on_reader = self.on_stream(fr, args[0], self.reader_local)
@@ -288,7 +345,7 @@ class Model:
             k = sum(1 for e in pth.events if e[0] == 'stream-write')
             fr.storev(dest, Opt(None, Agg([]), ('write', k, where)))
             return True
-        return False
+        return stdmodel.result_transfer(I, fr, t, c, pth)
 
 
 def as_result(v):
